@@ -1,1 +1,107 @@
-fn main() {}
+//! hx-bindings — correspondence harness for C16 (System / SPL Token / ATA bindings).
+//!
+//! Interpreter of op lines (see `lean/Spl/Spl/Driver/C16.lean` for the grammar):
+//!   * `ix <prog>.<Variant> …`  builds the instruction through the framework's client path
+//!     (`MakeInstruction::instruction` with the `…ClientAccounts` struct) and answers
+//!     `ok <program> <data> <metas>` as the framework produced them; the property oracle builds the same
+//!     instruction through the reference crate and compares program id, data and metas.
+//!   * `mint|token <owner> <image>`  puts the image into a native `AccountInfo`, runs the framework's
+//!     view (`validate_accounts` + `data()`), answers accept/reject + fields; oracle = `Pack::unpack`.
+//!   * `ata <wallet> <mint>`  runs `AssociatedToken::find_address_with_bump`; answers the PDA preimage
+//!     (seed list + program) that reproduces the framework's address and bump under the real
+//!     `find_program_address`; oracle = the reference derivation.
+mod gen;
+mod ixs;
+mod views;
+
+use hx_common::{Args, Recorder};
+
+/// What executing one op line yields.
+pub struct Exec {
+    pub answer: String,
+    /// property-oracle failures on the implementation: (class, detail)
+    pub fails: Vec<(String, String)>,
+    pub nontrivial: bool,
+    pub bumps: Vec<String>,
+}
+
+impl Exec {
+    pub fn bad() -> Exec {
+        Exec { answer: "bad-op".into(), fails: vec![], nontrivial: false, bumps: vec!["bad-op".into()] }
+    }
+}
+
+pub fn exec_line(line: &str) -> Exec {
+    let toks: Vec<&str> = line.split(' ').filter(|t| !t.is_empty()).collect();
+    let r = hx_common::catch(|| match toks.as_slice() {
+        ["ix", rest @ ..] => ixs::exec_ix(rest),
+        ["mint", owner, image] => views::exec_mint(owner, image),
+        ["token", owner, image] => views::exec_token(owner, image),
+        ["ata", wallet, mint] => views::exec_ata(wallet, mint),
+        _ => Exec::bad(),
+    });
+    match r {
+        Ok(e) => e,
+        Err(_) => Exec {
+            answer: "panic".into(),
+            fails: vec![("panic".into(), format!("the binding panicked on `{line}`"))],
+            nontrivial: true,
+            bumps: vec!["panic".into()],
+        },
+    }
+}
+
+fn run_case(rec: &mut Recorder, lines: &[String]) {
+    rec.case(&lines[0]);
+    let mut nontrivial = false;
+    for l in &lines[1..] {
+        let e = exec_line(l);
+        rec.op(l, &e.answer);
+        for b in &e.bumps {
+            rec.bump(b);
+        }
+        for (class, detail) in &e.fails {
+            rec.fail(class, detail);
+        }
+        nontrivial |= e.nontrivial;
+    }
+    if nontrivial {
+        rec.mark_nontrivial();
+    }
+}
+
+fn main() {
+    let args = Args::parse();
+    if args.prop != "C16" {
+        eprintln!("hx-bindings: unknown property {}", args.prop);
+        std::process::exit(2);
+    }
+    hx_common::quiet_panics();
+    let mut rec = Recorder::new(
+        "ix: the reference builder produced an instruction and it was compared with the framework's \
+         (program id, data, every meta); image: the image carries a `Some` option or takes a reject \
+         branch in the reference or the framework; ata: the PDA preimage of the framework's address was identified",
+    );
+    let cases: Vec<Vec<String>> = match args.replay_cases() {
+        Some(c) => c,
+        None => {
+            let mut c = gen::corpus_cases();
+            c.extend(gen::generate(&args));
+            c
+        }
+    };
+    for (i, c) in cases.iter().enumerate() {
+        if c.is_empty() || !c[0].starts_with("case") {
+            // a replay file whose first line is not a header: give it one
+            let mut v = vec![format!("case r{i} replay")];
+            v.extend(c.iter().cloned());
+            run_case(&mut rec, &v);
+        } else {
+            run_case(&mut rec, c);
+        }
+        if i % 97 == 0 {
+            rec.sample_current(5);
+        }
+    }
+    rec.finish(&args);
+}
